@@ -36,7 +36,7 @@ POOL = [
 ]
 QUICK = ["null", "int0", "int2", "rational", "float", "str", "ch", "ch2", "ustr", "list", "dict", "stream", "closure", "closure2"]
 SUB3 = ["int0", "int2", "str", "ch", "list", "closure2", "null", "stream", "float"]
-SUB3_QUICK = ["int2", "str", "list", "closure2"]
+SUB3_QUICK = ["int2", "str", "ch", "list", "closure2"]     # two different strings: pattern / replacement / subject must be tellable apart
 
 USER = [("c1", "\\a -> [a]"), ("c2", "\\a, b -> [a, b]"), ("c3", "\\a, b, c -> [a, b, c]"), ("cv", "\\...xs -> xs"),
         ("cd", "\\a, b = 5 -> [a, b]"), ("m2", "memoize(\\a, b -> [a, b])"), ("fl", "flip(\\a, b -> [a, b])"),
@@ -58,7 +58,9 @@ UN_FORMS = [("call", "{F}({A})"), ("bang", "{F} ! {A}"), ("dot", "{A} . {F}"), (
 TER_FORMS = [("call", "{F}({A}, {B}, {C})"), ("bang", "{F} ! {A}, {B}, {C}"), ("sect1", "{F}(_, {B}, {C})({A})"),
              ("sect2", "{F}({A}, _, {C})({B})"), ("sect12", "{F}(_, _, {C})({A}, {B})"), ("sect3", "{F}({A}, {B}, _)({C})"),
              ("apply", "[{A}, {B}, {C}] apply {F}"), ("of", "{F} of [{A}, {B}, {C}]"), ("splat", "{F}({A}, ...[{B}, {C}])"),
-             ("sect_then_splat", "{F}(_, ...[{B}, {C}])({A})"), ("sect_mid_splat", "{F}({A}, _, ...[{C}])({B})"), ("splat_then_sect", "{F}(...[{A}, {B}], _)({C})")]
+             ("sect_then_splat", "{F}(_, ...[{B}, {C}])({A})"), ("sect_mid_splat", "{F}({A}, _, ...[{C}])({B})"), ("splat_then_sect", "{F}(...[{A}, {B}], _)({C})"),
+             # two of three arguments: when f(b, c) is a function it is the section waiting for the FIRST argument
+             ("last2", "{F}({B}, {C})({A})"), ("last2_probe", "{F}({B}, {C})"), ("last2_then", "{A} then {F}({B}, {C})"), ("last2_map", "[{A}] map {F}({B}, {C})")]
 
 _G = None
 
@@ -173,7 +175,7 @@ def judge(case, rs):
     out = []
     src = dict(zip([n for n, _ in forms], case.steps))
     for name, r in res.items():
-        if name in ("rightsect", "rightsect_probe", "leftjux", "opassign"):
+        if name in ("rightsect", "rightsect_probe", "leftjux", "opassign", "last2", "last2_probe", "last2_then", "last2_map"):
             continue
         o = outcome_(r)
         if o is None:
@@ -201,6 +203,24 @@ def judge(case, rs):
             if o is not None and o != base:
                 out.append(Violation("C04 fn=%s arity=2 form=rightsect: f(b)(a) differs from f(a, b)" % m["fn"],
                                      "%s -> %s but %s -> %s" % (src["rightsect"], short(res["rightsect"]), src["call"], short(res["call"])), base, o))
+    if m["ar"] == 3:
+        probe = res["last2_probe"]
+        if base[0] == "ok" and probe.get("st") == "ok" and isinstance(probe.get("v"), list) and probe["v"][0] == "F":
+            bad = None
+            for name in ("last2", "last2_then"):
+                o = outcome_(res[name])
+                if o is not None and o != base and bad is None:
+                    bad = (name, res[name], o)
+            r = res["last2_map"]
+            if bad is None and r.get("st") == "ok" and base[0] == "ok":
+                want = json.dumps(loose(["l", [json.loads(base[1])]]) if unordered else ["l", [json.loads(base[1])]], sort_keys=True)
+                got = outcome_(r)
+                if got[1] != want:
+                    bad = ("last2_map", r, got)
+            if bad is not None:
+                # one signature per function whatever the spelling (f(b, c)(a), a then f(b, c), [a] map f(b, c))
+                out.append(Violation("C04 fn=%s arity=3 form=last2: f(b, c)(a) differs from f(a, b, c)" % m["fn"],
+                                     "%s -> %s but %s -> %s" % (src[bad[0]], short(bad[1]), src["call"], short(res["call"])), base, bad[2]))
     return out[:3]
 
 
